@@ -314,3 +314,17 @@ def run(ctx, rep):
     vals = set(disc.values())
     rep.check('C01.K', 'kernels::siblings-agree', len(vals) == 1, where(ctx.prog.module(MODULE), list(ks.values())[0].fn), {n: str(v) for n, v in disc.items()},
               f"the kernels disagree on (frequency side, category axis, proportions, site axis, root): {disc}")
+    # C01.N — the likelihood is that of *this* tree and *these* tip data: the plumbing that pairs leaves with sequences and builds the branch-length vector from a newick
+    # string (decided by the C02.N machinery), and the site model's rates have weighted mean one (C05.N: otherwise every branch is silently rescaled)
+    from props import c02, c05
+    from sa.report import RuleProxy
+    rep.rule('C01.N', "leaves are paired with their own tip data and the branch-length vector is that of the tree written down (C02.N rules); the discretised site rates the "
+                      "likelihood multiplies branch lengths by have weighted mean one (C05.N rules)")
+    try:
+        c02.check_names(ctx, RuleProxy(rep, 'C01.N', 'names::'))
+    except Unsupported as u:
+        rep.undecided('C01.N', 'names', '', str(u))
+    try:
+        c05.check_discretized(ctx, RuleProxy(rep, 'C01.N', 'site-rates::'))
+    except Unsupported as u:
+        rep.undecided('C01.N', 'site-rates', '', str(u))
